@@ -12,7 +12,7 @@ META = {
             "once, never stored in Server or across an await; W3 the lock-order graph over all locks of crate glas is acyclic; W4 the "
             "change is applied to the analysis host before diagnostics are recomputed, the snapshot is taken before the previous "
             "task is replaced, closed documents get empty diagnostics; W5 cancellation is requested before inputs are written. "
-            "One obligation per guard acquisition / call site. W7 the document store is written only after cancellation was requested (no reader pairs an old analysis with the new line map); W8 = C12/K4 over the handlers. W9 a cancelling handler recomputes all diagnostics on every path; W10 = C13/D9; W11 = C13/D10.",
+            "One obligation per guard acquisition / call site. W7 the document store is written only after cancellation was requested (no reader pairs an old analysis with the new line map); W8 = C12/K4 over the handlers. W9 a cancelling handler recomputes all diagnostics on every path; W10 = C13/D9; W11 = C13/D10; W12 a cancelled diagnostics computation hands no list to the publisher.",
     "explanation": "The two-lock discipline ('never wait for snapshots while holding the document store') is documented in "
                    "comments only. MIR makes guard lifetimes explicit (the unwrap that yields the guard, mem::drop, Drop "
                    "terminators, moves), so the regions in which a guard is live are computed exactly per function and every call "
@@ -46,6 +46,7 @@ def run(F, res, tier):
     # positions are converted through LineMap in both directions: writer and readers of its table use one coordinate system (C13/D10)
     from rules import c13 as _c13lm
     _c13lm.line_map_coordinates_agree(F, res, rule="W11")
+    cancelled_computation_publishes_nothing(F, res)
 
 
 def lock_rules(F, res, w1="W1", w3="W3"):
@@ -252,7 +253,9 @@ def other_rules(F, res):
 
     # ---- W5
     ac = F.fn(APPLY)
-    rc = [b for b, t in ac.calls() if callee(t) == "ide::ide::AnalysisHost::request_cancellation"]
+    # cancellation = request_cancellation(), or its body written out: salsa's synthetic_write on the database
+    rc = [b for b, t in ac.calls() if callee(t) == "ide::ide::AnalysisHost::request_cancellation" or
+          (callee(t) or callee_def(t) or "").endswith("::synthetic_write")]
     ap = [b for b, t in ac.calls() if callee(t) == "ide::base::Change::apply"]
     res.ob("W5", "cancel-before-write", "AnalysisHost::apply_change requests cancellation before it writes the inputs",
            len(rc) == 1 and len(ap) == 1 and ac.dominates(rc[0], ap[0]), where=ac.loc(), how="request_cancellation %d, Change::apply %d" % (len(rc), len(ap)))
@@ -343,3 +346,49 @@ def cancellation_is_followed_by_recompute(F, res, rule="W9"):
                    how="a path from the cancelling call at line %s reaches the return without spawn_update_all_diagnostics" % unsettled.get(e)
                    if e in cancelling else "all paths pass spawn_update_all_diagnostics (or a helper that always calls it)")
     res.floor("main-loop handlers that cancel", n, 3)
+
+
+def cancelled_computation_publishes_nothing(F, res, rule="W12"):
+    """W12: an edit cancels the running diagnostics computations; each of them ends with Err(Cancelled) while the task the edit
+    spawned computes the list of the new text. The two tasks finish in either order, so a cancelled computation must not hand
+    *any* list to the publisher: an empty list arriving last would stay as the diagnostics of the document. In every unit of
+    spawn_update_diagnostics (the blocking closure, the forwarding future, their closures) a list that does not come out of the
+    computation itself - a call producing Vec<Diagnostic>: Vec::new, unwrap_or_default, unwrap_or_else, Default::default - is
+    built only where a test `is::<Cancelled>()` on the error has answered no."""
+    SUD = "glas::server::Server::spawn_update_diagnostics"
+    if SUD not in F.fns:
+        raise FA.AnchorMissing(SUD)
+    units = [p for p in sorted(F.fns) if p == SUD or p.startswith(SUD + "::{closure")]
+    res.floor("units of spawn_update_diagnostics", len(units), 4)
+    computes = [p for p in units for _b, t in F.fns[p].calls() if callee(t) == "glas::handler::diagnostics"]
+    res.floor("units of spawn_update_diagnostics that compute the diagnostics", len(computes), 1)
+    n = 0
+    for p in units:
+        f = F.fns[p]
+        d = FL.Defs(f)
+        # the tests: calls asking whether an error is salsa's Cancelled, and the two edges of the switch on their answer
+        tests = []
+        for b, t in f.calls():
+            fn_ = t.get("fn") or {}
+            if PM.short(fn_.get("def") or "").split("::")[-1] in ("is", "downcast_ref", "is_cancelled") and \
+                    any(x.endswith("Cancelled") for x in fn_.get("targs") or []) and t.get("dty") == "bool":
+                for sb in range(len(f.blocks)):
+                    st = f.term(sb)
+                    if f.blocks[sb]["cleanup"] or st.get("k") != "switch":
+                        continue
+                    o = d.origin_op(st["op"])
+                    if o and o.get("k") == "call" and o.get("bb") == b:
+                        edges = dict(FL.switch_edges(st))
+                        tests.append((b, edges.get(0), edges.get("otherwise")))
+        for b, t in f.calls():
+            if f.blocks[b]["cleanup"]:
+                continue
+            if (t.get("dty") or "").replace(" ", "") != "alloc::vec::Vec<lsp_types::Diagnostic>":
+                continue
+            n += 1
+            ok = any(no is not None and yes is not None and no != yes and f.dominates(no, b) and not f.dominates(yes, b) for _tb, no, yes in tests)
+            res.ob(rule, "list-without-computation/%s/%s" % (p[len(SUD):] or "fn", PM.short(callee(t) or callee_def(t))),
+                   "a diagnostics list that is not the computation's own result is built only after the error was tested not to be "
+                   "a cancellation (a cancelled computation publishes nothing: the task of the newer text may already have published)",
+                   ok, where=f.loc(t["ln"]), how="Cancelled tests in this unit: %d; this call is dominated by the `no` edge of one: %s" % (len(tests), ok))
+    res.analysed["replacement_lists_in_spawn_update_diagnostics"] = n
